@@ -53,6 +53,10 @@ func c07Spec() *histSpec {
 				zn.ExprStmt{E: zn.Assign{Target: zn.This{Name: "N"}, Val: c07V("初")}},
 				zn.ExprStmt{E: zn.Assign{Target: c07V("最近"), Val: zn.This{Name: "自身"}}}}},
 			zn.Decl{Pairs: []zn.DeclPair{{Names: []string{"最近"}, Val: c07V("空")}}},
+			// methods that hand back what they were given (or a part of it): the value lives on outside
+			// the call, so storing the call's result stores a copy like storing the variable does
+			zn.Func{Name: "原样", Params: []string{"物"}, Body: []zn.Stmt{zn.Return{Val: c07V("物")}}},
+			zn.Func{Name: "头", Params: []string{"物"}, Body: []zn.Stmt{zn.Return{Val: c07Idx(c07V("物"), zn.Num{Lit: "1"})}}},
 		},
 		Init: []histOp{
 			{Label: "令A = 【【1】，【2】】", Declares: []string{"A"}, Stmts: c07Decl([]string{"A"}, zn.List{Items: []zn.Expr{zn.List{Items: []zn.Expr{one}}, zn.List{Items: []zn.Expr{zn.Num{Lit: "2"}}}}})},
@@ -100,6 +104,13 @@ func c07Spec() *histSpec {
 			}
 			if len(fresh) > 1 {
 				add(fmt.Sprintf("令%s、%s = %s", fresh[0], fresh[1], y), fresh[:2], c07Decl(fresh[:2], c07V(y)))
+				add(fmt.Sprintf("令%s、%s = （原样：%s）", fresh[0], fresh[1], y), fresh[:2], c07Decl(fresh[:2], zn.Call{Name: "原样", Args: []zn.Expr{c07V(y)}}))
+			}
+			// ... from a direct call of a program-defined method that returns its input / an item of it
+			if len(fresh) > 0 {
+				add(fmt.Sprintf("令%s = （原样：%s）", fresh[0], y), fresh[:1], c07Decl(fresh[:1], zn.Call{Name: "原样", Args: []zn.Expr{c07V(y)}}))
+				add(fmt.Sprintf("令%s = （头：%s）", fresh[0], y), fresh[:1], c07Decl(fresh[:1], zn.Call{Name: "头", Args: []zn.Expr{c07V(y)}}))
+				add(fmt.Sprintf("令%s = 【（原样：%s）】", fresh[0], y), fresh[:1], c07Decl(fresh[:1], zn.List{Items: []zn.Expr{zn.Call{Name: "原样", Args: []zn.Expr{c07V(y)}}}}))
 			}
 			// constants hold copies too: a constant only protects the name, not what it holds
 			if len(fresh) > 0 {
@@ -150,6 +161,9 @@ func c07Spec() *histSpec {
 				if y != x {
 					add(fmt.Sprintf("%s = 以%s（后增：n）", x, y), nil, c07S(zn.Assign{Target: X, Val: c07M(c07V(y), "后增", n)}))
 					add(fmt.Sprintf("%s = 以%s（读取：“K”）", x, y), nil, c07S(zn.Assign{Target: X, Val: c07M(c07V(y), "读取", kk)}))
+					add(fmt.Sprintf("%s = （原样：%s）", x, y), nil, c07S(zn.Assign{Target: X, Val: zn.Call{Name: "原样", Args: []zn.Expr{c07V(y)}}}))
+					add(fmt.Sprintf("%s = （头：%s）", x, y), nil, c07S(zn.Assign{Target: X, Val: zn.Call{Name: "头", Args: []zn.Expr{c07V(y)}}}))
+					add(fmt.Sprintf("%s#1 = （原样：%s）", x, y), nil, c07S(zn.Assign{Target: c07Idx(X, one), Val: zn.Call{Name: "原样", Args: []zn.Expr{c07V(y)}}}))
 				}
 			}
 			add(fmt.Sprintf("以%s（后增：n）", x), nil, c07S(c07M(X, "后增", n)))
@@ -368,7 +382,7 @@ func init() {
 	mc.Register(&mc.Check{
 		ID:    "C07",
 		Level: "model_checking",
-		Rule:  "E2: breadth-first search over operation histories on names A B C starting from 5 initial values (nested list, dictionary of list, list of dictionary, object with a list property, object of a type whose constructor leaves the list property alone and hands the object to a global holder that is observed with the names); operations: 令X = Y, 令X恒为Y, 令X恒为Y#1, 令X、Z恒为Y, 令X = 【Y，9】, X = 【Y，9】, X#“K” = 【K=Y】, 令X = Y之P, 令X = Y#1, 令X、Z = Y, X = Y, X之P = Y, X#1 = Y, X#“K” = Y, element / key / nested assignments, in-place 自增 of (nested) number items, X = 以Y（后增：n） and X = 以Y（读取：“K”） (assignment from a call that returns an existing collection), 后增 前增 左移 右移 移除 合并 at top and nested level, object methods and property writes; every successor is produced by re-running the whole history on a fresh real interpreter; all live names are observed structurally after every operation and compared with the reference (heap of trees, pointers only for objects); after every transition a probe battery mutates every container position reachable from every name and observes all names. States are merged on the reference state (values + object identity structure). Plus the literal-freshness programs: 5 literals (list, dictionary, nested list, a number, a list of a number) x 6 in-place changes x 9 contexts (bound in a method called twice, bound in a loop body, returned by a method and bound, returned and changed without being bound, one literal site executed three times with every value stored WITHOUT a copy - appended / passed to a method that appends it / returned by a method and appended - and one stored value changed after the loop or right after the first pass). Plus deep values: for every nesting depth d = 1..300 (1000 thorough), lists in lists and dictionaries in dictionaries built by a loop, copied by declaration and by assignment, the innermost list changed through the original (and an item through a copy) by an index chain of length d and read through all three names.",
+		Rule:  "E2: breadth-first search over operation histories on names A B C starting from 5 initial values (nested list, dictionary of list, list of dictionary, object with a list property, object of a type whose constructor leaves the list property alone and hands the object to a global holder that is observed with the names); operations: 令X = Y, 令X恒为Y, 令X恒为Y#1, 令X、Z恒为Y, 令X = 【Y，9】, X = 【Y，9】, X#“K” = 【K=Y】, 令X = Y之P, 令X = Y#1, 令X、Z = Y, X = Y, X之P = Y, X#1 = Y, X#“K” = Y, element / key / nested assignments, in-place 自增 of (nested) number items, X = 以Y（后增：n） and X = 以Y（读取：“K”） (assignment from a call that returns an existing collection), 令X = （原样：Y） 令X、Z = （原样：Y） 令X = （头：Y） 令X = 【（原样：Y）】 X = （原样：Y） X = （头：Y） X#1 = （原样：Y） (direct calls of program-defined methods that hand back their input or an item of it), 后增 前增 左移 右移 移除 合并 at top and nested level, object methods and property writes; every successor is produced by re-running the whole history on a fresh real interpreter; all live names are observed structurally after every operation and compared with the reference (heap of trees, pointers only for objects); after every transition a probe battery mutates every container position reachable from every name and observes all names. States are merged on the reference state (values + object identity structure). Plus the literal-freshness programs: 5 literals (list, dictionary, nested list, a number, a list of a number) x 6 in-place changes x 9 contexts (bound in a method called twice, bound in a loop body, returned by a method and bound, returned and changed without being bound, one literal site executed three times with every value stored WITHOUT a copy - appended / passed to a method that appends it / returned by a method and appended - and one stored value changed after the loop or right after the first pass). Plus deep values: for every nesting depth d = 1..300 (1000 thorough), lists in lists and dictionaries in dictionaries built by a loop, copied by declaration and by assignment, the innermost list changed through the original (and an item through a copy) by an index chain of length d and read through all three names.",
 		Assumptions: []string{
 			"list/dictionary values passed as method arguments or bound by 得到 / loop variables are by-reference today and unspecified: method arguments are fresh scalars or literals only",
 			"histories are merged on the reference state only for generating successors; the probe battery (mutate through each name at each position, observe all) runs after every transition, also one that reaches a reference state seen before",
